@@ -61,41 +61,68 @@ pub enum Sat {
 pub struct Solver {
     child: Child,
     inp: ChildStdin,
-    out: BufReader<ChildStdout>,
+    out: std::sync::mpsc::Receiver<String>,
     pub queries: u64,
     pub n_sat: u64,
     pub n_unsat: u64,
     pub n_unknown: u64,
     pub n_nl: u64,
+    pub n_killed: u64,
     pub secs: f64,
     pub timeout_ms: u64,
     pub last_query: String,
     pub tag: String,
     pub slow: Vec<String>,
+    decls: Vec<String>,
+    depth: u32,
     buf: String,
+}
+fn spawn_z3() -> (Child, ChildStdin, std::sync::mpsc::Receiver<String>) {
+    let bin = std::env::var("VERIF_Z3").unwrap_or_else(|_| "z3".into());
+    let mut child = Command::new(bin).args(["-in", "-smt2"]).stdin(Stdio::piped()).stdout(Stdio::piped()).stderr(Stdio::null()).spawn().expect("cannot start z3");
+    let inp = child.stdin.take().unwrap();
+    let stdout = child.stdout.take().unwrap();
+    let (tx, rx) = std::sync::mpsc::channel();
+    std::thread::spawn(move || { let r = BufReader::new(stdout); for line in r.lines() { match line { Ok(l) => { if tx.send(l).is_err() { break; } } Err(_) => break } } });
+    (child, inp, rx)
 }
 impl Solver {
     pub fn new(timeout_ms: u64) -> Self {
-        let bin = std::env::var("VERIF_Z3").unwrap_or_else(|_| "z3".into());
-        let mut child = Command::new(bin).args(["-in", "-smt2"]).stdin(Stdio::piped()).stdout(Stdio::piped()).stderr(Stdio::null()).spawn().expect("cannot start z3");
-        let inp = child.stdin.take().unwrap();
-        let out = BufReader::new(child.stdout.take().unwrap());
-        let mut s = Solver { child, inp, out, queries: 0, n_sat: 0, n_unsat: 0, n_unknown: 0, n_nl: 0, secs: 0.0, timeout_ms, last_query: String::new(), tag: String::new(), slow: vec![], buf: String::new() };
-        s.send("(set-option :global-declarations true)");
-        s.send(&format!("(set-option :timeout {})", timeout_ms));
+        let (child, inp, out) = spawn_z3();
+        let mut s = Solver { child, inp, out, queries: 0, n_sat: 0, n_unsat: 0, n_unknown: 0, n_nl: 0, n_killed: 0, secs: 0.0, timeout_ms, last_query: String::new(), tag: String::new(), slow: vec![], decls: vec![], depth: 0, buf: String::new() };
+        s.preamble();
         s
     }
+    fn preamble(&mut self) {
+        self.buf.push_str("(set-option :global-declarations true)\n");
+        self.buf.push_str(&format!("(set-option :timeout {})\n", self.timeout_ms));
+    }
+    /// kill a z3 that does not honour its time limit, start a fresh one and replay all scope-0 declarations
+    fn restart(&mut self) {
+        let _ = self.child.kill();
+        let _ = self.child.wait();
+        let (child, inp, out) = spawn_z3();
+        self.child = child; self.inp = inp; self.out = out;
+        self.buf.clear();
+        self.depth = 0;
+        self.n_killed += 1;
+        self.preamble();
+        for d in &self.decls { self.buf.push_str(d); self.buf.push('\n'); }
+    }
+    /// a scope-0 declaration / definition (remembered for restarts)
+    pub fn declare(&mut self, l: &str) { self.decls.push(l.to_string()); self.send(l); }
+    fn read_line(&mut self, limit_ms: u64) -> Option<String> { self.out.recv_timeout(std::time::Duration::from_millis(limit_ms)).ok() }
     pub fn send(&mut self, l: &str) {
         self.buf.push_str(l);
         self.buf.push('\n');
     }
     fn flush(&mut self) {
-        self.inp.write_all(self.buf.as_bytes()).expect("z3 pipe");
-        self.inp.flush().expect("z3 pipe");
+        if self.inp.write_all(self.buf.as_bytes()).is_err() || self.inp.flush().is_err() { self.buf.clear(); self.restart(); return; }
         self.buf.clear();
     }
     /// push; assert all; check. Caller must `pop()` (possibly after `model`).
-    pub fn check(&mut self, asserts: &[String], nonlinear: bool) -> Sat {
+    pub fn check(&mut self, asserts: &[String], nonlinear: bool) -> Sat { let t = self.timeout_ms; self.check_t(asserts, nonlinear, t) }
+    pub fn check_t(&mut self, asserts: &[String], nonlinear: bool, nl_timeout_ms: u64) -> Sat {
         self.queries += 1;
         let t0 = Instant::now();
         self.send("(push)");
@@ -108,16 +135,16 @@ impl Solver {
         }
         if nonlinear {
             self.n_nl += 1;
-            self.send(&format!("(check-sat-using (or-else (try-for qfnra-nlsat {}) (try-for smt {})))", self.timeout_ms, self.timeout_ms));
+            self.send(&format!("(check-sat-using (or-else (try-for qfnra-nlsat {}) (try-for smt {})))", nl_timeout_ms, nl_timeout_ms));
         } else {
             self.send("(check-sat)");
         }
         self.last_query = q;
         self.flush();
+        self.depth += 1;
+        let hard = if nonlinear { 2 * nl_timeout_ms + 3000 } else { self.timeout_ms + 3000 };
         let r = loop {
-            let mut line = String::new();
-            let n = self.out.read_line(&mut line).expect("z3 read");
-            if n == 0 { break Sat::Unknown; }
+            let Some(line) = self.read_line(hard) else { self.restart(); break Sat::Unknown; };
             match line.trim() {
                 "sat" => break Sat::Sat,
                 "unsat" => break Sat::Unsat,
@@ -133,21 +160,21 @@ impl Solver {
     }
     pub fn model(&mut self, names: &[String]) -> String {
         if names.is_empty() { return String::new(); }
+        if self.depth == 0 { return String::new(); }
         self.send(&format!("(get-value ({}))", names.join(" ")));
         self.flush();
         let mut acc = String::new();
         let mut depth = 0i32;
         loop {
-            let mut line = String::new();
-            let n = self.out.read_line(&mut line).expect("z3 read");
-            if n == 0 { break; }
+            let Some(line) = self.read_line(10000) else { self.restart(); break; };
             for ch in line.chars() { if ch == '(' { depth += 1 } if ch == ')' { depth -= 1 } }
             acc.push_str(&line);
+            acc.push('\n');
             if depth <= 0 && !acc.trim().is_empty() { break; }
         }
         acc
     }
-    pub fn pop(&mut self) { self.send("(pop)"); }
+    pub fn pop(&mut self) { if self.depth > 0 { self.depth -= 1; self.send("(pop)"); } }
     /// values of `names` as decimal approximations (for algebraic numbers z3 prints as root-obj)
     pub fn model_decimal(&mut self, names: &[String]) -> String {
         self.send("(set-option :pp.decimal true)");
@@ -219,6 +246,10 @@ pub struct Ctx {
     /// so obligations are evaluated with a 1e-9 relative tolerance instead of exactly
     pub approx: bool,
     pub n_inputs: u32,
+    /// timeout for nonlinear *branch-feasibility* queries (an undecided branch is explored on both sides, which is sound)
+    pub branch_nl_timeout_ms: u64,
+    /// wall-clock deadline of the unit being explored (None = no limit)
+    pub deadline: Option<Instant>,
 }
 
 thread_local! {
@@ -256,7 +287,7 @@ impl Ctx {
             solver: Solver::new(timeout_ms), mode: Mode::Symbolic, exact_inputs: HashMap::new(),
             var_names: vec![], var_ids: HashMap::new(),
             pc: vec![], decisions: vec![], prefix: vec![], pending: vec![], cache: HashMap::new(),
-            stats: PathStats::default(), violations: vec![], max_decisions: 400, check_obligations: true, approx: false, n_inputs: 0,
+            stats: PathStats::default(), violations: vec![], max_decisions: 400, check_obligations: true, approx: false, n_inputs: 0, branch_nl_timeout_ms: timeout_ms, deadline: None,
         }
     }
     pub fn begin_path(&mut self, prefix: Vec<bool>) {
@@ -319,8 +350,8 @@ impl Ctx {
         };
         let nl = nl_self || deps[..nd as usize].iter().any(|d| self.nl[*d as usize]);
         match def {
-            Some(d) => self.solver.send(&format!("(define-fun n{} () Real {})", i, d)),
-            None => self.solver.send(&format!("(declare-const n{} Real)", i)),
+            Some(d) => self.solver.declare(&format!("(define-fun n{} () Real {})", i, d)),
+            None => self.solver.declare(&format!("(declare-const n{} Real)", i)),
         }
         self.nl.push(nl);
         self.deps.push(deps);
@@ -463,13 +494,14 @@ impl Ctx {
         (ax, nl, vars)
     }
     /// is `PC ∧ extra` satisfiable?
-    pub fn query(&mut self, extra: &[Cond<Sym>], want_model: bool) -> (Sat, Vec<(String, BigRational)>, String) {
+    pub fn query(&mut self, extra: &[Cond<Sym>], want_model: bool) -> (Sat, Vec<(String, BigRational)>, String) { let t = self.solver.timeout_ms; self.query_t(extra, want_model, t) }
+    pub fn query_t(&mut self, extra: &[Cond<Sym>], want_model: bool, nl_timeout_ms: u64) -> (Sat, Vec<(String, BigRational)>, String) {
         let mut refs: Vec<&Cond<Sym>> = self.pc.iter().collect();
         for e in extra { refs.push(e); }
         let (ax, nl, vars) = self.cone(&refs);
         let mut asserts: Vec<String> = ax;
         for c in &refs { asserts.push(self.smt(c)); }
-        let r = self.solver.check(&asserts, nl);
+        let r = self.solver.check_t(&asserts, nl, nl_timeout_ms);
         let mut model = vec![];
         let mut raw = String::new();
         if r == Sat::Sat && want_model {
@@ -499,10 +531,12 @@ impl Ctx {
         let cond = if op == 0 { Cond::Lt(Sym(a), Sym(b)) } else { Cond::Eq(Sym(a), Sym(b)) };
         let idx = self.decisions.len();
         if idx >= self.max_decisions { std::panic::panic_any(EngineAbort(format!("more than {} symbolic decisions on one path", self.max_decisions))); }
+        if let Some(d) = self.deadline { if idx >= self.prefix.len() && Instant::now() > d { std::panic::panic_any(EngineAbort("budget: unit time budget exhausted".into())); } }
         let d = if idx < self.prefix.len() { self.prefix[idx] } else {
-            let (t, _, _) = self.query(&[cond.clone()], false);
+            let bt = self.branch_nl_timeout_ms;
+            let (t, _, _) = self.query_t(&[cond.clone()], false, bt);
             if t == Sat::Unsat { false } else {
-                let (f, _, _) = self.query(&[Cond::not(cond.clone())], false);
+                let (f, _, _) = self.query_t(&[Cond::not(cond.clone())], false, bt);
                 if t == Sat::Unknown || f == Sat::Unknown { self.stats.unknown_branches += 1; }
                 match f {
                     Sat::Unsat => true,
